@@ -907,9 +907,11 @@ func main() {
 		scenarioLateNext(rng)
 		scenarioOptions()
 		scenarioDefaults()
-		scenarioDeadlines(120*time.Millisecond, 100*time.Millisecond)
-		scenarioDeadlines(400*time.Millisecond, 0)
-		scenarioDeadlines(0, 260*time.Millisecond)
+		const ms = time.Millisecond
+		scenarioDeadlines(40*ms, 250*ms, 150*ms, 120*ms, 100*ms)
+		scenarioDeadlines(40*ms, 250*ms, 150*ms, 400*ms, 0)
+		scenarioDeadlines(40*ms, 250*ms, 150*ms, 0, 260*ms)
+		scenarioDeadlines(40*ms, 3000*ms, 3000*ms, 0, 0) // the silent heartbeat against long session / rebalance time-outs
 	}
 	if only == "d8" {
 		scenarioD8(rng)
